@@ -305,7 +305,46 @@ def sweep_corruptions(rep, root, limit, rnd):
             rep.violation(f"accepted-tampered:link:stale-core-deps:{name}", {"file": "B.core", "edit": name})
     with open(proj.path("B", "core"), "w") as f:
         f.write(origB)
-    return {"corruption_leaves_total": total, "corruption_leaves_tried": done, "corruptions_accepted": accepted, "stale_deps_forgeries": forged}
+    # ---- artifacts of ANOTHER version, consistent in themselves (hash recomputed over the changed field): every version field of
+    # A.interface (consumed by check / build of B) and of A.core - top level and embedded interface - (consumed by link), set to the
+    # versions before and after the current one, to 0 and to a far one.  "Older" is as foreign as "newer".
+    for q in ("A", "B", "Main"):
+        proj.compile_pkg("build", q)
+    v, err, _ = proj.link(["A", "B", "Main"])
+    if v != "ok":
+        raise ToolError("sweep: link of the rebuilt project failed: " + err)
+    other = 0
+    for (which, where, fld) in [("interface", "top", "format_version"), ("interface", "top", "compiler_abi"), ("core", "top", "format_version"), ("core", "top", "compiler_abi"),
+                                ("core", "iface", "format_version"), ("core", "iface", "compiler_abi")]:
+        orig = open(proj.path("A", which)).read()
+        j0 = json.loads(orig)
+        holder0 = j0 if where == "top" else j0["interface"]
+        cur = holder0[fld]
+        for val, vname in sorted({(cur + 1, "next"), (max(cur - 1, 0), "previous"), (0, "zero"), (cur + 1000, "far")} - {(cur, "previous"), (cur, "zero")}):
+            if val == cur:
+                continue
+            jj = json.loads(orig)
+            holder = jj if where == "top" else jj["interface"]
+            holder[fld] = val
+            if which == "interface" or where == "iface":
+                holder["interface_hash"] = iface_hash(holder)
+            with open(proj.path("A", which), "w") as f:
+                json.dump(jj, f, indent=2, ensure_ascii=False)
+            runs = [("check", lambda: proj.compile_pkg("check", "B")), ("build", lambda: proj.compile_pkg("build", "B"))] if which == "interface" else [("link", lambda: proj.link(["A", "B", "Main"]))]
+            for cmdname, go_ in runs:
+                got, err, pan = go_()
+                other += 1
+                tag = f"{'core.iface' if where == 'iface' else which}.{fld}:{vname}"
+                if pan:
+                    rep.violation(f"panic:{cmdname}:otherversion:{tag}", {"stderr": err})
+                elif got == "ok":
+                    rep.violation(f"accepted-corrupt:{cmdname}:otherversion:{tag}", {"file": f"A.{which}", "field": fld, "current": cur, "written": val})
+        with open(proj.path("A", which), "w") as f:
+            f.write(orig)
+    # (restore what the consumers of the altered interface wrote)
+    for q in ("A", "B", "Main"):
+        proj.compile_pkg("build", q)
+    return {"corruption_leaves_total": total, "corruption_leaves_tried": done, "corruptions_accepted": accepted, "stale_deps_forgeries": forged, "other_version_artifacts_offered": other}
 
 
 def run(tier, rep):
